@@ -289,6 +289,13 @@ def r2_delegated(chk, prog):
         deep = deep_origins(ctx, t.args[1], 6)
         if any(is_call(o, FS) for o in deep) and any(is_call(o, SDT) for o in deep):
             pushed = True
+            # .. and every one of them: nothing but the end of the list (and a failing from_signed) keeps
+            # a collected role out
+            fc = foreign_controls(ctx, bb, lambda o: False)
+            chk.require(not fc, "R2", ctx.fn, "re-emits-every-delegated-role",
+                        "a collected delegated role is re-emitted only under a condition (on %s): a role can be "
+                        "dropped from the written repository" % sorted(set(repr(o) for _, os_ in fc for o in os_))[:3],
+                        ctx.site(fc[0][0]) if fc else None)
     # iterator spelling: signed_delegated_targets().into_iter().map(SignedRole::from_signed).collect()
     for bb, t in ctx.calls("core::iter::traits::iterator::Iterator::map"):
         if not any(is_call(o, SDT) for o in deep_origins(ctx, t.args[0], 6)):
@@ -320,6 +327,15 @@ def r2_delegated(chk, prog):
         psh = sctx.calls("alloc::vec::Vec::push")
         chk.require(bool(rec) and bool(ext) and bool(psh), "R2", sctx.fn, "recursive",
                     "signed_delegated_targets does not include each role and, recursively, the roles below it")
+        # each listed role with loaded metadata, and everything below it, whatever its other attributes:
+        # the collecting steps depend only on `delegations` / `role.targets` being present
+        present = lambda o: o.kind in ("param", "upvar") and o.fields[-1:] in (("delegations",), ("targets",), ("roles",))
+        for bb2, t2 in list(ext) and [(b_, t_) for b_, t_ in sctx.calls("core::iter::traits::collect::Extend::extend")] + psh:
+            fc = foreign_controls(sctx, bb2, present)
+            chk.require(not fc, "R2", sctx.fn, "collects-unconditionally:" + ("extend" if t2.is_call_to("core::iter::traits::collect::Extend::extend") else "push"),
+                        "a delegated role (or the roles below it) is collected only under a condition on %s: roles are "
+                        "silently dropped when the repository is re-signed"
+                        % sorted(set(repr(o) for _, os_ in fc for o in os_))[:3], sctx.site(fc[0][0]) if fc else None)
     # from_signed keeps the Signed<_> value and serialises exactly it
     fctx = ctx_of(prog, FS)
     if fctx is None:
